@@ -62,7 +62,11 @@ func (b *headBlocks) SignedBeaconBlock(context.Context, *api.SignedBeaconBlockOp
 	if !b.live || b.in.Kind == "fetcherr" {
 		return nil, errors.New("scripted block failure")
 	}
-	in := b.in
+	return &api.Response[*spec.VersionedSignedBeaconBlock]{Data: makeBlock(b.in), Metadata: map[string]any{}}, nil
+}
+
+// makeBlock builds the block of the shape given by the version and nil-ness fields of in.
+func makeBlock(in *HeadIn) *spec.VersionedSignedBeaconBlock {
 	blk := &spec.VersionedSignedBeaconBlock{Version: spec.DataVersion(in.Version)}
 	state := phase0.Root{1}
 	if in.StateZero {
@@ -117,7 +121,19 @@ func (b *headBlocks) SignedBeaconBlock(context.Context, *api.SignedBeaconBlockOp
 			}
 		}
 	}
-	return &api.Response[*spec.VersionedSignedBeaconBlock]{Data: blk, Metadata: map[string]any{}}, nil
+	return blk
+}
+
+// headTerm reads the execution head of the cache as an option term.
+func headTerm(ctx context.Context, svc *standardcache.Service) (string, uint64) {
+	hash, height := svc.ExecutionChainHead(ctx)
+	switch {
+	case hash == (phase0.Hash32{}) && height == 0:
+		return None(), height
+	case hash == execHash(height):
+		return Some(N(height)), height
+	}
+	return Some(N(1 << 62)), height // an execution head nobody scripted
 }
 
 type noHeaders struct{}
@@ -167,15 +183,8 @@ func runHead(t *testing.T, in *HeadIn) result {
 	if panicked {
 		res.obsTerm = App("OHead", panicT)
 	} else {
-		hash, height := svc.ExecutionChainHead(ctx)
-		switch {
-		case hash == (phase0.Hash32{}) && height == 0:
-			res.obsTerm = App("OHead", okT(None()))
-		case hash == execHash(height):
-			res.obsTerm = App("OHead", okT(Some(N(height))))
-		default:
-			res.obsTerm = App("OHead", okT(Some(N(1<<62)))) // an execution head nobody scripted
-		}
+		term, height := headTerm(ctx, svc)
+		res.obsTerm = App("OHead", okT(term))
 		res.obs.Detail = map[string]any{"height": height}
 	}
 	switch in.Kind {
@@ -246,12 +255,18 @@ type ErrBodyIn struct {
 	Failures []string `json:"failures"`            // null | tolerated | real
 	Omit     bool     `json:"omit,omitempty"`      // the failures list is absent (only with no failures)
 	NullList bool     `json:"null_list,omitempty"` // the failures list is the JSON value null (only with no failures)
-	Trace    bool     `json:"trace_log,omitempty"`
+	// VersionErr: the node's version cannot be fetched (the server is then unknown to the classifier);
+	// Then: what NodeVersion answers when asked again within the classification ("" | flip | nil)
+	VersionErr bool   `json:"version_err,omitempty"`
+	Then       string `json:"then,omitempty"`
+	Trace      bool   `json:"trace_log,omitempty"`
 }
 
 type errNode struct {
 	server string
 	err    error
+	verr   bool
+	sc     *again
 }
 
 func (n *errNode) Name() string    { return "node" }
@@ -259,6 +274,16 @@ func (n *errNode) Address() string { return "http://node.c16.invalid" }
 func (n *errNode) IsActive() bool  { return true }
 func (n *errNode) IsSynced() bool  { return true }
 func (n *errNode) NodeVersion(context.Context, *api.NodeVersionOpts) (*api.Response[string], error) {
+	fail := n.verr
+	switch _, then := n.sc.call("nodeversion"); then {
+	case "flip":
+		fail = !fail
+	case "nil":
+		return nil, nil
+	}
+	if fail {
+		return nil, errors.New("scripted node version failure")
+	}
 	v := map[string]string{"lighthouse": "Lighthouse/v5.1.3-3058b96/x86_64-linux", "teku": "teku/v24.4.0/linux-x86_64/-eclipseadoptium-openjdk64bitservervm-java-17",
 		"other": "Nimbus/v24.3.0-dc19b0-stateofus"}[n.server]
 	return &api.Response[string]{Data: v, Metadata: map[string]any{}}, nil
@@ -334,7 +359,7 @@ func runErrBody(t *testing.T, in *ErrBodyIn) result {
 		t.Fatalf("multinode submitter constructor: %v", err)
 	}
 	text := errBodyText(in)
-	node := &errNode{server: in.Server, err: errors.New(text)}
+	node := &errNode{server: in.Server, err: errors.New(text), verr: in.VersionErr, sc: &again{then: in.Then}}
 	var out error
 	panicked, msg := catch(func() {
 		if in.Call == "contributions" {
@@ -355,6 +380,10 @@ func runErrBody(t *testing.T, in *ErrBodyIn) result {
 	server := map[string]string{"lighthouse": "SLighthouse", "teku": "STeku", "other": "SOther"}[in.Server]
 	if in.Call == "contributions" && in.Server == "teku" {
 		server = "SOther" // the contributions handler only knows Lighthouse bodies
+	}
+	if in.VersionErr {
+		server = "SOther" // nobody knows what the node is
+		res.counts = append(res.counts, "node-version-unavailable")
 	}
 	var body string
 	switch in.Body {
@@ -413,6 +442,8 @@ func genErrBody(r *Rand) *ErrBodyIn {
 		in.Omit = n == 0 && r.Bool()
 		in.NullList = n == 0 && !in.Omit && r.Bool()
 	}
+	in.VersionErr = r.Chance(1, 8)
+	in.Then = []string{"", "flip", "flip", "nil"}[r.Intn(4)]
 	return in
 }
 
